@@ -120,6 +120,12 @@ CHECKS = {
         text='Theorems: with all curvatures zero Breitung, Tvedt and Hohenbichler-Rackwitz equal Phi(-beta); Breitung = Phi(-beta) prod (1 + beta k_i)^-1/2 and H-R with phi(beta)/Phi(beta) in place of beta; all three are invariant under permutation of the curvatures; non-negative curvatures lower and curvatures in (-1/c, 0] raise the estimate relative to FORM; for any rotation R the leading block of the conjugated paraboloid Hessian equals R diag(k) R^T and has characteristic polynomial prod (X - k_i), so the extracted curvatures do not depend on the rotation or ordering of the axes. The closing formulas are evaluated at Float and compared with the implementation (curvature extraction replaced as in the repository tests); the full pipeline is checked on rotated paraboloids (also through correlated normal marginals) and on flat limit states (correlated normals, lognormal product / ratio).',
         note='Trusted: Lean kernel + standard axioms + Mathlib; Phi / phi values supplied by scipy to the Float model; coptFORM (SLSQP), numerical Hessian, np.linalg.eig and Gram-Schmidt conditioning are modelled, not verified; tolerance 2e-3 on curvature-dependent results.',
         ref='§5 C12'),
+    'C17': dict(
+        engine='real-analysis',
+        technique='Lean 4 proof over the reals / complex numbers about a code-shaped model of the synthesiser and the mathematical periodogram (roots-of-unity sums: amplitude bound, mean-square = spectral area, periodogram at the component bins, Parseval area = variance, quadratic scaling, sampling-rate invariance) + Float evaluation of the model and identities evaluated on the implementation and on scipy',
+        text='Theorems: the synthesised series has one sample per index at times k/fs and never exceeds the sum of its component amplitudes sqrt(2 S_i bw); when every used component completes whole periods strictly below Nyquist (distinct bins 0 < 2 m_i < n) the mean square equals sum S_i bw exactly (also stated on the model itself), and the one-sided periodogram of that series times the bin width returns S_j bw at bin m_j (S_j itself when bw = fs/n); for every real series the one-sided density of the mean-removed series is non-negative, its area over the grid p fs/n equals the population variance (Parseval, Nyquist bin handled), it scales with the square of the amplitude and its area does not depend on fs. The synthesiser model is evaluated at Float with scripted phases and compared with the implementation; the wrappers are checked to forward to scipy.signal unchanged and the identities are evaluated on scipy output (periodogram and Welch).',
+        note='Trusted: Lean kernel + standard axioms + Mathlib; scipy.signal.periodogram / welch are external (wrapper identity checked; the theorems are about the mathematical periodogram, Welch only through the scaling / rate-invariance identities on tested series); tolerance 1e-9.',
+        ref='§5 C17'),
 }
 
 NOT_YET = {}
